@@ -117,6 +117,29 @@ func (f *Fix) lendPos(e *sim.Env, u sdk.AccAddress, asset uint64) lendtypes.Lend
 	return l
 }
 
+// pairOf / debtDenom: the lend pair and debt denom of the position shape (same-pool CMDX->CMST, cross-pool CMDX->USDC).
+func (f *Fix) pairOf(prod string) uint64 {
+	if prod == "cross" {
+		return f.PairCross
+	}
+	return f.PairCmdxCmst
+}
+
+func (f *Fix) debtDenom(prod string) string {
+	if prod == "cross" {
+		return "uusdc"
+	}
+	return "ucmst"
+}
+
+func (f *Fix) borrowPosP(e *sim.Env, u sdk.AccAddress, prod string) lendtypes.BorrowAsset {
+	b, found := e.App.LendKeeper.GetBorrow(e.Ctx, f.borrowOf(e, u, f.pairOf(prod)))
+	if !found {
+		b.AmountIn, b.AmountOut, b.InterestAccumulated = sdk.NewCoin("uccmdx", sdk.ZeroInt()), sdk.NewCoin(f.debtDenom(prod), sdk.ZeroInt()), sdk.ZeroDec()
+	}
+	return b
+}
+
 func (f *Fix) borrowPos(e *sim.Env, u sdk.AccAddress) lendtypes.BorrowAsset {
 	b, found := e.App.LendKeeper.GetBorrow(e.Ctx, f.borrowOf(e, u, f.PairCmdxCmst))
 	if !found {
@@ -271,16 +294,16 @@ var builders = map[string]builder{
 		return lendtypes.NewMsgBorrowAlternate(s.String(), f.ATOM, f.Pool, coin("uatom", 10*unit), f.PairAtomCmst, false, coin("ucmst", 20*unit), f.AppCommodo)
 	},
 	"lend.DepositBorrow": func(f *Fix, e *sim.Env, s, h sdk.AccAddress, prod string, ax Ax) sdk.Msg {
-		return lendtypes.NewMsgDepositBorrow(s.String(), f.borrowOf(e, h, f.PairCmdxCmst), sdk.NewCoin("uccmdx", ax.amount(10*unit, f.borrowPos(e, h).AmountIn.Amount)))
+		return lendtypes.NewMsgDepositBorrow(s.String(), f.borrowOf(e, h, f.pairOf(prod)), sdk.NewCoin("uccmdx", ax.amount(10*unit, f.borrowPosP(e, h, prod).AmountIn.Amount)))
 	},
 	"lend.Draw": func(f *Fix, e *sim.Env, s, h sdk.AccAddress, prod string, ax Ax) sdk.Msg {
-		return lendtypes.NewMsgDraw(s.String(), f.borrowOf(e, h, f.PairCmdxCmst), sdk.NewCoin("ucmst", ax.amount(5*unit, f.borrowPos(e, h).AmountOut.Amount)))
+		return lendtypes.NewMsgDraw(s.String(), f.borrowOf(e, h, f.pairOf(prod)), sdk.NewCoin(f.debtDenom(prod), ax.amount(5*unit, f.borrowPosP(e, h, prod).AmountOut.Amount)))
 	},
 	"lend.Repay": func(f *Fix, e *sim.Env, s, h sdk.AccAddress, prod string, ax Ax) sdk.Msg {
-		return lendtypes.NewMsgRepay(s.String(), f.borrowOf(e, h, f.PairCmdxCmst), sdk.NewCoin("ucmst", ax.amount(5*unit, f.borrowPos(e, h).AmountOut.Amount.Add(f.borrowPos(e, h).InterestAccumulated.TruncateInt()))))
+		return lendtypes.NewMsgRepay(s.String(), f.borrowOf(e, h, f.pairOf(prod)), sdk.NewCoin(f.debtDenom(prod), ax.amount(5*unit, f.borrowPosP(e, h, prod).AmountOut.Amount.Add(f.borrowPosP(e, h, prod).InterestAccumulated.TruncateInt()))))
 	},
 	"lend.CloseBorrow": func(f *Fix, e *sim.Env, s, h sdk.AccAddress, prod string, ax Ax) sdk.Msg {
-		return lendtypes.NewMsgCloseBorrow(s.String(), f.borrowOf(e, h, f.PairCmdxCmst))
+		return lendtypes.NewMsgCloseBorrow(s.String(), f.borrowOf(e, h, f.pairOf(prod)))
 	},
 	"lend.RepayWithdraw": func(f *Fix, e *sim.Env, s, h sdk.AccAddress, prod string, ax Ax) sdk.Msg {
 		return lendtypes.NewMsgRepayWithdraw(s.String(), f.borrowOf(e, h, f.PairCmdxCmst))
@@ -367,6 +390,17 @@ func (f *Fix) prepCtl(e *sim.Env, h string) {
 
 // roleAsset maps the price roles of a control cell to asset ids.
 func (f *Fix) roleAsset(h, prod, role string) uint64 {
+	if prod == "cross" {
+		switch role {
+		case "in":
+			return f.CMDX
+		case "out":
+			return f.USDC
+		case "t1":
+			return f.CMST
+		}
+		return f.ATOM
+	}
 	switch h {
 	case "lend.Lend", "lend.Deposit", "lend.Withdraw", "lend.CloseLend", "lend.Borrow", "lend.BorrowAlternate":
 		if role == "in" {
@@ -432,8 +466,8 @@ func (f *Fix) ApplyControls(e *sim.Env, app uint64, breaker bool, esm string) er
 			// same block as MsgExecuteESM: the shutdown hook has not run, there is no price snapshot
 		case "blocked":
 			// blocks pass, but the snapshot cannot complete: the feed of an oracle-priced asset that none of the matrix'
-			// price roles consults (USDC) is inactive
-			PriceActive(e, f.USDC, false)
+			// price roles consults (FEED) is inactive
+			PriceActive(e, f.FEED, false)
 			for n := 0; n < 2; n++ {
 				if br := e.NextBlock(6 * time.Second); br.Panic {
 					return fmt.Errorf("block after esm: %s", br.Err)
